@@ -12,6 +12,10 @@ def KType.isFixedInt : KType → Bool
 /-- largest representable timestamp, 9999-12-31T23:59:59.999 in µs -/
 def maxDatetimeUs : Int := 253402300799999000
 
+/-- `datetime.timedelta.min` / `.max` in µs -/
+def timedeltaMinUs : Int := -86399999913600000000
+def timedeltaMaxUs : Int := 86399999999999999999
+
 /-- a value inhabits Kafka type `k` in canonical form (`nullable`: the annotation allows None) -/
 def primValueOk (env : Env) (k : KType) (nullable : Bool) : Value → Bool
   | .int i => k.isFixedInt || (k == .errorCode && env.errorCodes.contains i)
@@ -21,6 +25,7 @@ def primValueOk (env : Env) (k : KType) (nullable : Bool) : Value → Bool
   | .bytes _ => k == .bytes || k == .records
   | .uuid b => k == .uuid && decide (b.length = 16) && decide (b ≠ uuidZero)
   | .timedelta us => (k == .timedeltaI32 || k == .timedeltaI64) && decide (us % 1000 = 0)
+      && decide (timedeltaMinUs ≤ us) && decide (us ≤ timedeltaMaxUs)
   | .datetime us => k == .datetimeI64 && decide (us % 1000 = 0) && decide (0 ≤ us) && decide (us ≤ maxDatetimeUs)
   | .none => k == .uuid || (nullable && (k == .string || k == .bytes || k == .records || k == .datetimeI64))
   | _ => false
